@@ -5,6 +5,8 @@ CONSTANTS
   ReqDual = {"d1"}
   Reloads = {"m1"}
   ToB = {"m1"}
+  Bad = {}
+  ReloadOrder = "load-first"
   Protocol = "per-selection"
 INVARIANT Emit
 CHECK_DEADLOCK FALSE
